@@ -270,7 +270,7 @@ def run(tier, seed):
     chk = core.Check("C14", tier, "exploration",
                      f"{len(E)} scalar expressions (arithmetic, comparison, AND/OR/NOT, IS NULL, CASE, IN, BETWEEN, LIKE, ||, replace, CAST) over columns cycling through boundary domains with NULLs, "
                      f"batch lengths {lens(tier) if tier == 'quick' else '0..200'} x {{memory (one chunk), disk (64-byte blocks)}}, plus {len(SPARSE)} sparse NULL layouts (NULLs in one 64-row bitmap word only, the other words NULL-free); each as projection and, for booleans, as WHERE / (e) OR q / NOT (e) / (e) AND ..; "
-                     f"row-by-row comparison with a scalar three-valued reference; plus {len(extreme_exprs())} nested arithmetic/cast expressions over all pairs of {{NULL,0,+-1,INT MIN,INT MAX}} (defined rows in one batch == reference, every overflowing row alone must be an error); plus overflow/out-of-range cases that must be errors, and all binary constant expressions over {{null,0,1,-1,2}} / {{null,true,false}}: folded value == run-time value == reference; "
+                     f"row-by-row comparison with a scalar three-valued reference; plus {len(extreme_exprs())} nested arithmetic/cast expressions over all pairs of {{NULL,0,+-1,INT MIN,INT MAX}} (defined rows in one batch == reference, every overflowing row alone must be an error); plus casts of DOUBLE / DECIMAL / VARCHAR values at the exact limits of SMALLINT / INT / BIGINT (exact value or error, at run time and folded); plus overflow/out-of-range cases that must be errors, and all binary constant expressions over {{null,0,1,-1,2}} / {{null,true,false}}: folded value == run-time value == reference; "
                      "a case = (expression, form, batch length, engine); non-trivial = batch has >= 1 row", seed)
     items = []
     for L in lens(tier):
@@ -374,6 +374,48 @@ def run(tier, seed):
                 chk.ok(cid, outcome="overflow-reported")
             else:
                 chk.fail(cid, "overflow-not-an-error:extreme", c, x, outcome="overflow")
+    # ---- casts at the exact limits of the integer types: every value alone (error or exact value) and the castable ones in a batch
+    import math
+    from decimal import Decimal as Dec
+    targets = {"smallint": I16, "int": I32, "bigint": I64}
+    dbl = [2.0 ** 63, -(2.0 ** 63), 2.0 ** 63 - 1024, -(2.0 ** 63) - 2048, 2.0 ** 31, 2.0 ** 31 - 1, -(2.0 ** 31), -(2.0 ** 31) - 1, 32767.0, 32768.0, -32768.0, -32769.0,
+           32767.9, -32768.9, 0.5, -0.5, 1e300, -1e300]
+    decs = ["9223372036854775807", "9223372036854775808", "-9223372036854775808", "-9223372036854775809", "2147483647", "2147483648", "-2147483649", "32767", "32768", "-32769", "32767.5"]
+    cases_ = []
+    for tname, rng_ in targets.items():
+        for v in dbl:
+            t = math.trunc(v)
+            exp = t if rng_[0] <= t <= rng_[1] else ERR
+            cases_.append((f"cast(cast('{v!r}' as double) as {tname})", exp, {"cast": "double->" + tname, "value": repr(v)}))
+        for s_ in decs:
+            d = Dec(s_)
+            exp = int(d) if d == d.to_integral_value() and rng_[0] <= int(d) <= rng_[1] else (ERR if not (rng_[0] <= int(d) <= rng_[1]) else "ANY")
+            cases_.append((f"cast(cast('{s_}' as decimal) as {tname})", exp, {"cast": "decimal->" + tname, "value": s_}))
+            exp2 = int(d) if d == d.to_integral_value() and rng_[0] <= int(d) <= rng_[1] else ERR
+            cases_.append((f"cast('{s_}' as {tname})", exp2, {"cast": "varchar->" + tname, "value": s_}))
+    sc = [{"id": 0, "engine": "mem", "steps": [{"sql": "create table one(x int)"}, {"sql": "insert into one values (1)"},
+                                             {"sql": f"select {e} from one"}, {"sql": f"select {e}"}]} for e, _, _ in cases_]
+    for (e, exp, c), r in zip(cases_, runner.run_many("sql", sc, timeout=120)):
+        for form, x in (("runtime", r["results"][2]), ("folded", r["results"][3])) if not r.get("abort") else (("abort", r),):
+            cc = dict(c, form=form)
+            cid = core.case_id(cc)
+            st = U.status(x)
+            if exp == ERR:
+                if st.startswith("err") and "panicked" not in json.dumps(x):
+                    chk.ok(cid, outcome="cast-out-of-range-reported")
+                else:
+                    chk.fail(cid, "out-of-range-cast-not-an-error", cc, x, outcome="cast")
+            elif exp == "ANY":
+                if st in ("rows",) or (st.startswith("err") and "panicked" not in json.dumps(x)):
+                    chk.ok(cid, outcome="cast-fraction")
+                else:
+                    chk.fail(cid, "cast-fails", cc, x, outcome="cast")
+            else:
+                got = U.decode(x)[0][0] if U.is_rows(x) and x["rows"] else st
+                if got == exp:
+                    chk.ok(cid, outcome="cast-exact")
+                else:
+                    chk.fail(cid, "cast-wrong-value", cc, {"got": got, "want": exp}, outcome="cast")
     # ---- overflow must be an error
     scripts = []
     for q, data in OVERFLOW:
